@@ -211,7 +211,20 @@ def build(desc, shuffle=False):
                         sts[i] = models[i].put()
             for (a, b) in conns:
                 lk.connect(sts[a[0]].pin[f"p{a[1]}"], sts[b[0]].pin[f"p{b[1]}"])
+            # a component with several exposed pins may expose them in ONE call, listed against declaration order:
+            # Structure.raise_pins([pins], [names])
+            done = set()
+            for c in sorted({x[0] for x in expo}):
+                mine = [(k, name) for (cc, k, name) in expo if cc == c]
+                if len(mine) >= 2 and len({k for k, _ in mine}) == len(mine) and rng.random() < 0.35 \
+                        and not comps[c].get("bare"):
+                    mine.sort(key=lambda t: -t[0])
+                    pini = [Pin(f"p{k}") if rng.random() < 0.5 else f"p{k}" for k, _ in mine]
+                    sts[c].raise_pins(pini, [name for _, name in mine])
+                    done.add(c)
             for (c, k, name) in expo:
+                if c in done:
+                    continue
                 if comps[c].get("n", 0) > 1 and not comps[c].get("ps") and rng.random() < 0.2:
                     # the name is first given to another pin of the structure, then mapped again: the last mapping counts
                     lk.putpin(name, sts[c].pin[f"p{(k + 1) % comps[c]['n']}"])
